@@ -7,15 +7,15 @@
    notification with the provider calls ISSUED (Start / Interim c ok / Stop c).  [drun] adds asynchronous delivery:
    the calls that ARRIVE at the provider when Start calls may be delayed.
    Variants:  [V fs fo fl fp] = the code with the first three repairs plus any subset of fix_sent, fix_order, fix_l2stop,
-              fix_prune;  [head] = V true false true false = /repo HEAD (committed: 7e92d8e, e0693a6, d70a5ae, 9b87063,
-              d95fed1);  the two findings still open are fix_order (unordered goroutines, no patch: RepairSpec.v holds the
-              specification of that repair) and fix_prune (orphan prune without Stop, fixes/C09_stop_on_prune.patch);
-              [repaired] = V true true true true;  [before_9b87063] = V false false false false;
+              fix_prune;  [head] = V true false true true = /repo HEAD (committed: 7e92d8e, e0693a6, d70a5ae, 9b87063,
+              d95fed1, 7faf7f9);  the one finding still open is fix_order (provider calls sent from unordered goroutines,
+              no patch: RepairSpec.v holds the specification of that repair);  [repaired] = V true true true true;
+              [before_7faf7f9] = V true false true false;  [before_9b87063] = V false false false false;
               [defective] = the code as first found.
    Hypotheses:  W  lrun_wraps = false — no uint64 cumulative wrapped; C09_no_wrap_if_total_small derives it from the
                    readings alone, for every variant and access type;
-                P  no_prune = true — the 5-minute orphan deadline never passed for the session; needed at /repo HEAD
-                   (C09_prune_hypothesis_needed: known finding), not needed with fix_prune.
+                P  no_prune = true — the 5-minute orphan deadline never passed for the session; only needed for variants
+                   without fix_prune (the code before 7faf7f9), not at /repo HEAD.
    [ETick sn false] is "Interim sent, no Accounting-Response (yet)"; [EAck] is a response arriving late.       *)
 From OV Require Import Common.Base C09.Model C09.Proofs.
 Open Scope N_scope.
@@ -140,7 +140,7 @@ Theorem C09_monotone_on_wire :
 Proof. exact monotone_on_wire. Qed.
 Print Assumptions C09_monotone_on_wire.
 
-(* ================= /repo HEAD (fs = true); fix_prune (open finding with patch) ================= *)
+(* ================= /repo HEAD (fs = true, fp = true) ================= *)
 
 (* /repo HEAD: every Interim and the Stop are >= the last report SENT, acknowledged or not, in flight or not — all
    histories, including a release while an Interim is unanswered ([ETick _ false; EReleased _]) and late responses *)
@@ -150,7 +150,7 @@ Theorem C09_monotone_sent :
 Proof. exact monotone_sent. Qed.
 Print Assumptions C09_monotone_sent.
 
-(* fix_prune (fixes/C09_stop_on_prune.patch): no hypothesis about pruning - a pruned orphan is closed with a Stop *)
+(* /repo HEAD since 7faf7f9 (fix_prune): no hypothesis about pruning - a pruned orphan is closed with a Stop *)
 Theorem C09_start_once_prune_closed :
   forall fs fo fl g evs, lrun_wraps (V fs fo fl true) g sst0 evs = false ->
   bracketed false (outputs (snd (lrun (V fs fo fl true) g sst0 evs))) = true.
@@ -235,9 +235,9 @@ Qed.
 Print Assumptions C09_wrap_hypothesis_needed.
 
 Example C09_prune_hypothesis_needed :
-  exists evs, lrun_wraps head false sst0 evs = false /\ no_prune evs = false /\
-              nondecreasing c4z (outputs (snd (lrun head false sst0 evs))) = false /\
-              nondecreasing c4z (outputs (snd (lrun repaired false sst0 evs))) = true.
+  exists evs, lrun_wraps before_7faf7f9 false sst0 evs = false /\ no_prune evs = false /\
+              nondecreasing c4z (outputs (snd (lrun before_7faf7f9 false sst0 evs))) = false /\
+              nondecreasing c4z (outputs (snd (lrun head false sst0 evs))) = true.
 Proof.
   exists [EActive 5 0; ETick (rd 5 1000) true; ERestart; EPrune true; ERestored 5 0; ETick (rd 5 5) true].
   vm_compute. auto.
@@ -255,7 +255,7 @@ Example C09_nonvacuous_inflight :
 Proof. vm_compute. repeat split. Qed.
 Print Assumptions C09_nonvacuous_inflight.
 
-(* ================= /repo HEAD violates the property (the finding still open) ================= *)
+(* ================= /repo HEAD violates the property (the one finding still open) ================= *)
 (* a delayed Start goroutine: the backend sees the Stop (or an Interim) before the Start *)
 Theorem C09_delivered_strict_refuted :
   exists xs, lrun_wraps head false sst0 (dev_events xs) = false /\ no_prune (dev_events xs) = true /\
@@ -264,18 +264,18 @@ Theorem C09_delivered_strict_refuted :
 Proof. exists [DHold true; DEv (EActive 5 0); DEv (EReleased (rd 5 9)); DRelease]. vm_compute. auto. Qed.
 Print Assumptions C09_delivered_strict_refuted.
 
-(* known finding pruneOrphanedAcctEntries-drops-accounting-without-stop: the accounting of a session whose restore did
-   not arrive within 5 minutes of a restart is dropped without a Stop; when the session is announced again the backend
-   sees a second Start without Stop *)
-Theorem C09_prune_without_stop_refuted :
-  exists evs, lrun_wraps head false sst0 evs = false /\
-              bracketed false (outputs (snd (lrun head false sst0 evs))) = false /\
-              strictT BClosed (snd (lrun head false sst0 evs)) = false /\
-              bracketed false (outputs (snd (lrun repaired false sst0 evs))) = true.
-Proof. exists [EActive 5 0; ERestart; EPrune true; EActive 5 0]. vm_compute. auto. Qed.
-Print Assumptions C09_prune_without_stop_refuted.
 
 (* ================= historical: fixed in /repo ================= *)
+(* fixed in 7faf7f9 (pruneOrphanedAcctEntries-drops-accounting-without-stop): the accounting of a session whose restore did
+   not arrive within 5 minutes of a restart was dropped without a Stop; when the session is announced again the backend
+   saw a second Start without Stop *)
+Theorem C09_before_7faf7f9_prune_refuted :
+  exists evs, lrun_wraps before_7faf7f9 false sst0 evs = false /\
+              bracketed false (outputs (snd (lrun before_7faf7f9 false sst0 evs))) = false /\
+              strictT BClosed (snd (lrun before_7faf7f9 false sst0 evs)) = false /\
+              bracketed false (outputs (snd (lrun head false sst0 evs))) = true.
+Proof. exists [EActive 5 0; ERestart; EPrune true; EActive 5 0]. vm_compute. auto. Qed.
+Print Assumptions C09_before_7faf7f9_prune_refuted.
 (* fixed in 9b87063: a report whose Accounting-Response was lost (2000) was followed by a smaller one (1005) *)
 Theorem C09_before_9b87063_monotone_sent_refuted :
   exists evs, lrun_wraps before_9b87063 false sst0 evs = false /\ no_prune evs = true /\
